@@ -33,7 +33,16 @@ def lane(k):
             meta=json.load(open(d+"/meta.json"))
             patch=d+"/patch.diff"
             shutil.copy("/verif/known_findings.json",root+"/known_findings.json")
-            if sh(f"git apply --check {patch}",cwd=wt).returncode!=0:
+            def try_apply():
+                sh("git reset --hard -q && git clean -fdq",cwd=wt)
+                if sh(f"git apply {patch}",cwd=wt).returncode==0: return "plain"
+                sh("git reset --hard -q && git clean -fdq",cwd=wt)
+                if sh(f"git apply --3way {patch}",cwd=wt).returncode==0:
+                    sh("git reset -q",cwd=wt); return "3way"
+                sh("git reset --hard -q && git clean -fdq",cwd=wt)
+                return None
+            how=try_apply()
+            if how is None:
                 meta["applies_to_head"]={"commit":head,"applies":False}
                 json.dump(meta,open(d+"/meta.json","w"),indent=1)
                 with lock: print(sid,"DOES NOT APPLY",flush=True)
@@ -41,7 +50,6 @@ def lane(k):
             caught=[]
             props=[meta["property"]]+meta.get("also_try",[])
             try:
-                sh(f"git apply {patch}",cwd=wt)
                 b=sh(f"go build -modfile={base}/go.mod -tags verif -o {bind}/vcheck ./cmd/vcheck",cwd="/verif/harness")
                 if b.returncode!=0:
                     with lock: print(sid,"BUILD FAILED",b.stderr[:300],flush=True)
@@ -58,8 +66,8 @@ def lane(k):
                             break
                         if prop!=meta["property"]: break
             finally:
-                sh("git checkout -- . && git clean -fdq",cwd=wt)
-            meta["applies_to_head"]={"commit":head,"applies":True}
+                sh("git reset --hard -q && git clean -fdq",cwd=wt)
+            meta["applies_to_head"]={"commit":head,"applies":True,"how":how}
             meta["caught_by"]=caught or None
             json.dump(meta,open(d+"/meta.json","w"),indent=1)
             with lock: print(sid,"caught by",[(c["check"],c["tier"]) for c in caught] or "NOTHING",flush=True)
